@@ -1,29 +1,34 @@
-//! C06 on the permutation table of REAL challenger circuits: every input cell (and the index accumulator) of every
-//! Poseidon2 row of an honest transcript circuit is changed (+1) while everything else is left as the honest run produced it;
-//! the trace is proven with the honest prover data and judged by the real verifier.  A challenge is bound to the whole
-//! transcript only if every one of these cells is bound (to the witness through the bus, or to the preceding row through
-//! the chaining constraints): an accepted deviation is a cell the prover may choose.
+//! C06 on the permutation table of REAL challenger circuits.  Every input cell (and the index accumulator) of every
+//! Poseidon2 row of an honest transcript circuit is changed by +1 in two ways, each proven with the honest prover data and
+//! judged by the real verifier:
+//!   isolated    only the cell changes (the row's outputs follow it, nothing else does);
+//!   consistent  the circuit is re-executed with a permutation executor that runs THAT permutation on the changed input,
+//!               so every value downstream of the row (later permutations, sampled challenges, the public values they are
+//!               compared with) follows the deviation; the cell is then the only place where the table disagrees with what
+//!               binds it (bus read of a witness value, zero assertion of a fresh sponge, chaining from the previous row).
+//! A challenge is bound to the whole transcript only if every such cell is bound: an accepted deviation is a cell the prover
+//! may choose.  The first mode cannot expose a missing binding when the row's outputs are exposed (the bus breaks
+//! downstream); the second violates one relation only.
 //!
-//! Two transcripts: the extension-degree challenger (KoalaBear D4, width 16, recompose table on) and the base-field
-//! challenger in a quintic circuit (KoalaBear D1 rows, capacity chained inside the table).  Both: observe n, sample,
-//! observe 5, sample, sample(s) - three permutations, the last one triggered by a sample on an exhausted output buffer;
-//! n = 8 (the first permutation absorbs a full block) and n = 3 (partial block: zero padding in the rate part).
+//! Transcripts: the extension-degree challenger (KoalaBear D4, width 16, recompose table on) and the base-field
+//! challenger in a quintic circuit (KoalaBear D1 rows, capacity chained inside the table).  observe n, sample, observe 5,
+//! sample(s) - three permutations; n = 8 (full first block), 3 (partial block: zero padding in the rate part), 0.
 use std::panic::{AssertUnwindSafe, catch_unwind};
 
 use p3_batch_stark::ProverData;
-use p3_challenger::{CanObserve, CanSample, DuplexChallenger, FieldChallenger};
 use p3_circuit::ops::{KoalaBearD1Width16, NpoTypeId, Poseidon2Config, Poseidon2Trace, generate_poseidon2_trace, generate_recompose_trace};
-use p3_circuit::{Circuit, CircuitBuilder, Traces};
+use p3_circuit::{Circuit, CircuitBuilder, ExprId, Traces};
 use p3_circuit_prover::batch_stark_prover::{poseidon2_air_builders, poseidon2_air_builders_d5, poseidon2_table_provers_d5, recompose_air_builders};
 use p3_circuit_prover::common::{NpoPreprocessor, get_airs_and_degrees_with_prep};
 use p3_circuit_prover::config::{self, KoalaBearConfig};
 use p3_circuit_prover::{BatchStarkProver, CircuitProverData, ConstraintProfile, Poseidon2Preprocessor, RecomposePreprocessor, TablePacking};
 use p3_field::extension::{BinomialExtensionField, QuinticTrinomialExtensionField};
 use p3_field::{BasedVectorSpace, Field, PrimeCharacteristicRing};
-use p3_koala_bear::{KoalaBear, default_koalabear_poseidon2_16};
+use p3_koala_bear::{KoalaBear, Poseidon2KoalaBear, default_koalabear_poseidon2_16};
 use p3_poseidon2_circuit_air::KoalaBearD4Width16;
 use p3_recursion::challenger::CircuitChallenger;
 use p3_recursion::traits::RecursiveChallenger;
+use p3_symmetric::Permutation;
 use serde_json::{Value, json};
 
 type KB = KoalaBear;
@@ -32,6 +37,39 @@ type E5 = QuinticTrinomialExtensionField<KB>;
 
 fn block(n: usize, off: u64) -> Vec<KB> {
     (0..n).map(|i| KB::from_u64(off + i as u64)).collect()
+}
+
+/// The permutation the runner executes: the real one, except that the call whose input equals `when.0` runs on that input
+/// with `when.2` added to element `when.1`.
+#[derive(Clone)]
+pub struct DevPerm {
+    inner: Poseidon2KoalaBear<16>,
+    when: Option<([KB; 16], usize, KB)>,
+}
+impl DevPerm {
+    fn honest() -> Self {
+        DevPerm { inner: default_koalabear_poseidon2_16(), when: None }
+    }
+}
+impl Permutation<[KB; 16]> for DevPerm {
+    fn permute(&self, mut x: [KB; 16]) -> [KB; 16] {
+        if let Some((w, j, d)) = &self.when
+            && x == *w
+        {
+            x[*j] += *d;
+        }
+        self.inner.permute(x)
+    }
+}
+/// Lifted to the quintic circuit field (the runner's executor of the D1 path works on circuit-field elements).
+#[derive(Clone)]
+struct LiftedPerm(DevPerm);
+impl Permutation<[E5; 16]> for LiftedPerm {
+    fn permute(&self, input: [E5; 16]) -> [E5; 16] {
+        let bases: [KB; 16] = core::array::from_fn(|i| <E5 as BasedVectorSpace<KB>>::as_basis_coefficients_slice(&input[i])[0]);
+        let out = self.0.permute(bases);
+        core::array::from_fn(|i| E5::new([out[i], KB::ZERO, KB::ZERO, KB::ZERO, KB::ZERO]))
+    }
 }
 
 macro_rules! judge {
@@ -49,17 +87,6 @@ macro_rules! judge {
     };
 }
 
-/// The base permutation lifted to the quintic circuit field (the runner's executor works on circuit-field elements).
-#[derive(Clone)]
-struct LiftedPerm(p3_koala_bear::Poseidon2KoalaBear<16>);
-impl p3_symmetric::Permutation<[E5; 16]> for LiftedPerm {
-    fn permute(&self, input: [E5; 16]) -> [E5; 16] {
-        let bases: [KB; 16] = core::array::from_fn(|i| <E5 as BasedVectorSpace<KB>>::as_basis_coefficients_slice(&input[i])[0]);
-        let out = self.0.permute(bases);
-        core::array::from_fn(|i| E5::new([out[i], KB::ZERO, KB::ZERO, KB::ZERO, KB::ZERO]))
-    }
-}
-
 /// One swept transcript: the class of every cell whose deviation the verifier ACCEPTED, with counts per class.
 pub struct Swept {
     pub name: &'static str,
@@ -71,51 +98,181 @@ pub struct Swept {
     pub accepted: Vec<(String, usize, Value)>,
     /// classes seen at all (rejected or accepted), for the evidence
     pub classes: Vec<String>,
+    pub errors: Vec<String>,
 }
 
-fn sweep_table<EF: Field>(name: &'static str, d: usize, id: NpoTypeId, verdict: &dyn Fn(&Traces<EF>) -> &'static str, honest: &Traces<EF>) -> Result<Swept, String> {
+struct BuiltT<EF> {
+    circuit: Circuit<EF>,
+    samples: Vec<ExprId>,
+}
+
+/// Run `build(perm, false)` to learn the sampled values, then `build(perm, true)` (samples compared with public inputs) on them.
+fn run_exposed<EF: Field>(build: &dyn Fn(DevPerm, bool) -> Result<BuiltT<EF>, String>, perm: &DevPerm) -> Result<(Circuit<EF>, Traces<EF>), String> {
+    let a = build(perm.clone(), false)?;
+    let ta = a.circuit.runner().run().map_err(|e| format!("run (unexposed): {e:?}"))?;
+    let mut vals = Vec::new();
+    for s in &a.samples {
+        let w = a.circuit.expr_to_widx.get(s).ok_or("sample target without witness")?;
+        vals.push(*ta.witness_trace.get_value(*w).ok_or("sample witness unset")?);
+    }
+    let b = build(perm.clone(), true)?;
+    let t = {
+        let mut runner = b.circuit.runner();
+        runner.set_public_inputs(&vals).map_err(|e| format!("public inputs: {e:?}"))?;
+        runner.run().map_err(|e| format!("run: {e:?}"))?
+    };
+    Ok((b.circuit, t))
+}
+
+fn sweep_table<EF: Field>(
+    name: &'static str,
+    d: usize,
+    id: NpoTypeId,
+    verdict: &dyn Fn(&Traces<EF>) -> &'static str,
+    honest: &Traces<EF>,
+    build: &dyn Fn(DevPerm, bool) -> Result<BuiltT<EF>, String>,
+) -> Result<Swept, String> {
     let hv = verdict(honest);
     let tr0 = honest.non_primitive_trace::<Poseidon2Trace<KB>>(&id).cloned().ok_or("no Poseidon2 trace")?;
-    let mut sw = Swept { name, honest: hv, rows: tr0.operations.len(), cells: 0, rejected: 0, accepted: Vec::new(), classes: Vec::new() };
+    let mut sw = Swept { name, honest: hv, rows: tr0.operations.len(), cells: 0, rejected: 0, accepted: Vec::new(), classes: Vec::new(), errors: Vec::new() };
     if hv != "accepted" {
         return Ok(sw);
     }
     for (r, row) in tr0.operations.iter().enumerate() {
         let ncell = row.input_values.len();
         let rowkind = if row.merkle_path { "merkle-row" } else if row.new_start { "new-start-row" } else { "chained-row" };
-        for j in 0..=ncell {
-            let mut tr = tr0.clone();
-            let class = if j == ncell {
-                tr.operations[r].mmcs_index_sum += KB::ONE;
-                format!("{rowkind}-index-accumulator")
-            } else {
-                tr.operations[r].input_values[j] += KB::ONE;
-                let limb = j / d;
-                let half = if j < ncell / 2 { "rate" } else { "capacity" };
-                format!("{rowkind}-{half}-{}", if row.in_ctl.get(limb).copied().unwrap_or(false) { "exposed-input" } else { "unexposed-input" })
-            };
-            if !sw.classes.contains(&class) {
-                sw.classes.push(class.clone());
-            }
-            let mut t = honest.clone();
-            t.non_primitive_traces.insert(id.clone(), Box::new(tr));
-            sw.cells += 1;
-            if verdict(&t) == "accepted" {
-                // an index accumulator nobody reads: exposure disabled, no Merkle row
-                if j == ncell && !row.mmcs_ctl_enabled && !row.merkle_path {
+        for mode in ["isolated", "consistent"] {
+            for j in 0..=ncell {
+                if mode == "consistent" && (j == ncell || ncell != 16) {
                     continue;
                 }
-                let ex = json!({"row": r, "cell": j, "new_start": row.new_start, "in_ctl": row.in_ctl, "out_ctl": row.out_ctl, "rows": tr0.operations.len()});
-                match sw.accepted.iter_mut().find(|a| a.0 == class) {
-                    Some(a) => a.1 += 1,
-                    None => sw.accepted.push((class, 1, ex)),
+                let base_class = if j == ncell {
+                    format!("{rowkind}-index-accumulator")
+                } else {
+                    let half = if j < ncell / 2 { "rate" } else { "capacity" };
+                    format!("{rowkind}-{half}-{}", if row.in_ctl.get(j / d).copied().unwrap_or(false) { "exposed-input" } else { "unexposed-input" })
+                };
+                let class = if mode == "consistent" { format!("{base_class}-downstream-consistent") } else { base_class };
+                let t = if mode == "isolated" {
+                    let mut tr = tr0.clone();
+                    if j == ncell {
+                        tr.operations[r].mmcs_index_sum += KB::ONE;
+                    } else {
+                        tr.operations[r].input_values[j] += KB::ONE;
+                    }
+                    let mut t = honest.clone();
+                    t.non_primitive_traces.insert(id.clone(), Box::new(tr));
+                    t
+                } else {
+                    let w: [KB; 16] = core::array::from_fn(|i| row.input_values[i]);
+                    let perm = DevPerm { inner: default_koalabear_poseidon2_16(), when: Some((w, j, KB::ONE)) };
+                    let (_, mut t) = match run_exposed(build, &perm) {
+                        Ok(x) => x,
+                        Err(e) => {
+                            sw.errors.push(format!("row {r} cell {j}: {e}"));
+                            continue;
+                        }
+                    };
+                    let Some(mut tr) = t.non_primitive_trace::<Poseidon2Trace<KB>>(&id).cloned() else {
+                        sw.errors.push(format!("row {r} cell {j}: no Poseidon2 trace in the deviating run"));
+                        continue;
+                    };
+                    // the deviating run records the input the circuit handed to the executor (the honest one); the table row
+                    // must show the input the permutation really ran on
+                    if tr.operations.len() != tr0.operations.len() || tr.operations[r].input_values != row.input_values {
+                        sw.errors.push(format!("row {r} cell {j}: the deviating run does not reproduce the honest input of the row"));
+                        continue;
+                    }
+                    tr.operations[r].input_values[j] += KB::ONE;
+                    t.non_primitive_traces.insert(id.clone(), Box::new(tr));
+                    t
+                };
+                if !sw.classes.contains(&class) {
+                    sw.classes.push(class.clone());
                 }
-            } else {
-                sw.rejected += 1;
+                sw.cells += 1;
+                if verdict(&t) == "accepted" {
+                    // an index accumulator nobody reads: exposure disabled, no Merkle row
+                    if j == ncell && !row.mmcs_ctl_enabled && !row.merkle_path {
+                        continue;
+                    }
+                    let ex = json!({"row": r, "cell": j, "mode": mode, "new_start": row.new_start, "in_ctl": row.in_ctl, "out_ctl": row.out_ctl, "rows": tr0.operations.len()});
+                    match sw.accepted.iter_mut().find(|a| a.0 == class) {
+                        Some(a) => a.1 += 1,
+                        None => sw.accepted.push((class, 1, ex)),
+                    }
+                } else {
+                    sw.rejected += 1;
+                }
             }
         }
     }
     Ok(sw)
+}
+
+fn build_ext(first: usize, perm: DevPerm, expose: bool) -> Result<BuiltT<E4>, String> {
+    let mut b = CircuitBuilder::<E4>::new();
+    b.enable_poseidon2_perm::<KoalaBearD4Width16, _>(generate_poseidon2_trace::<E4, KoalaBearD4Width16>, perm);
+    b.enable_recompose::<KB>(generate_recompose_trace::<KB, E4>);
+    let mut cc = CircuitChallenger::<16, 8, Poseidon2Config>::new_koalabear();
+    let mut samples = Vec::new();
+    for v in block(first, 1) {
+        let t = b.define_const(E4::from(v));
+        RecursiveChallenger::<KB, E4>::observe(&mut cc, &mut b, t);
+    }
+    samples.push(RecursiveChallenger::<KB, E4>::sample_ext(&mut cc, &mut b));
+    for v in block(5, 100) {
+        let t = b.define_const(E4::from(v));
+        RecursiveChallenger::<KB, E4>::observe(&mut cc, &mut b, t);
+    }
+    for _ in 0..3 {
+        samples.push(RecursiveChallenger::<KB, E4>::sample_ext(&mut cc, &mut b));
+    }
+    // the samples are used (and, when exposed, compared with public inputs)
+    for t in &samples {
+        if expose {
+            let p = b.public_input();
+            let dlt = b.sub(*t, p);
+            b.assert_zero(dlt);
+        } else {
+            let two = b.define_const(E4::from_u64(2));
+            let _ = b.mul(*t, two);
+        }
+    }
+    let circuit: Circuit<E4> = b.build().map_err(|e| format!("build: {e:?}"))?;
+    Ok(BuiltT { circuit, samples })
+}
+
+fn build_base(first: usize, perm: DevPerm, expose: bool) -> Result<BuiltT<E5>, String> {
+    let lift = |v: KB| E5::new([v, KB::ZERO, KB::ZERO, KB::ZERO, KB::ZERO]);
+    let mut b = CircuitBuilder::<E5>::new();
+    b.enable_poseidon2_perm_base::<KoalaBearD1Width16, _>(generate_poseidon2_trace::<E5, KoalaBearD1Width16>, LiftedPerm(perm));
+    let mut cc: CircuitChallenger<16, 8, Poseidon2Config> = CircuitChallenger::new_koalabear_base();
+    let mut samples = Vec::new();
+    for v in block(first, 1) {
+        let t = b.define_const(lift(v));
+        RecursiveChallenger::<KB, E5>::observe(&mut cc, &mut b, t);
+    }
+    samples.push(RecursiveChallenger::<KB, E5>::sample(&mut cc, &mut b));
+    for v in block(5, 100) {
+        let t = b.define_const(lift(v));
+        RecursiveChallenger::<KB, E5>::observe(&mut cc, &mut b, t);
+    }
+    for _ in 0..9 {
+        samples.push(RecursiveChallenger::<KB, E5>::sample(&mut cc, &mut b));
+    }
+    for t in &samples {
+        if expose {
+            let p = b.public_input();
+            let dlt = b.sub(*t, p);
+            b.assert_zero(dlt);
+        } else {
+            let two = b.define_const(lift(KB::from_u64(2)));
+            let _ = b.mul(*t, two);
+        }
+    }
+    let circuit: Circuit<E5> = b.build().map_err(|e| format!("build: {e:?}"))?;
+    Ok(BuiltT { circuit, samples })
 }
 
 /// KoalaBear D4 extension challenger, recompose table on.
@@ -127,34 +284,8 @@ pub fn digest_ext(first: usize, name: &'static str) -> Result<String, String> {
     ext_inner(first, name, true).map(|r| r.1)
 }
 fn ext_inner(first: usize, name: &'static str, digest_only: bool) -> Result<(Option<Swept>, String), String> {
-    let mut b = CircuitBuilder::<E4>::new();
-    b.enable_poseidon2_perm::<KoalaBearD4Width16, _>(generate_poseidon2_trace::<E4, KoalaBearD4Width16>, default_koalabear_poseidon2_16());
-    b.enable_recompose::<KB>(generate_recompose_trace::<KB, E4>);
-    let mut cc = CircuitChallenger::<16, 8, Poseidon2Config>::new_koalabear();
-    let mut native = DuplexChallenger::<KB, _, 16, 8>::new(default_koalabear_poseidon2_16());
-    let mut samples_t = Vec::new();
-    let mut samples_v: Vec<E4> = Vec::new();
-    for v in block(first, 1) {
-        let t = b.define_const(E4::from(v));
-        RecursiveChallenger::<KB, E4>::observe(&mut cc, &mut b, t);
-        native.observe(v);
-    }
-    samples_t.push(RecursiveChallenger::<KB, E4>::sample_ext(&mut cc, &mut b));
-    samples_v.push(native.sample_algebra_element());
-    for v in block(5, 100) {
-        let t = b.define_const(E4::from(v));
-        RecursiveChallenger::<KB, E4>::observe(&mut cc, &mut b, t);
-        native.observe(v);
-    }
-    for _ in 0..3 {
-        samples_t.push(RecursiveChallenger::<KB, E4>::sample_ext(&mut cc, &mut b));
-        samples_v.push(native.sample_algebra_element());
-    }
-    for t in &samples_t {
-        let p = b.public_input();
-        b.connect(*t, p);
-    }
-    let circuit: Circuit<E4> = b.build().map_err(|e| format!("build: {e:?}"))?;
+    let build = move |p: DevPerm, expose: bool| build_ext(first, p, expose);
+    let (circuit, honest) = run_exposed(&build, &DevPerm::honest())?;
     let packing = TablePacking::new(1, 1);
     let npo_prep: Vec<Box<dyn NpoPreprocessor<KB>>> = vec![Box::new(Poseidon2Preprocessor), Box::new(RecomposePreprocessor::default())];
     let mut air_builders = poseidon2_air_builders::<_, 4>();
@@ -170,11 +301,8 @@ fn ext_inner(first: usize, name: &'static str, digest_only: bool) -> Result<(Opt
     prover.register_poseidon2_table::<4>(Poseidon2Config::KOALA_BEAR_D4_W16);
     prover.register_recompose_table::<4>(false);
     let cpd = CircuitProverData::new(pd, pc, npc);
-    let mut runner = circuit.runner();
-    runner.set_public_inputs(&samples_v).map_err(|e| format!("public inputs: {e:?}"))?;
-    let honest = runner.run().map_err(|e| format!("run: {e:?}"))?;
     let j = judge!(prover, cpd, E4);
-    sweep_table::<E4>(name, 4, NpoTypeId::poseidon2_perm(Poseidon2Config::KOALA_BEAR_D4_W16), &j, &honest).map(|s| (Some(s), line))
+    sweep_table::<E4>(name, 4, NpoTypeId::poseidon2_perm(Poseidon2Config::KOALA_BEAR_D4_W16), &j, &honest, &build).map(|s| (Some(s), line))
 }
 
 /// KoalaBear base-field challenger rows (D1) in a quintic circuit.
@@ -185,35 +313,8 @@ pub fn digest_base(first: usize, name: &'static str) -> Result<String, String> {
     base_inner(first, name, true).map(|r| r.1)
 }
 fn base_inner(first: usize, name: &'static str, digest_only: bool) -> Result<(Option<Swept>, String), String> {
-    let lift = |v: KB| E5::new([v, KB::ZERO, KB::ZERO, KB::ZERO, KB::ZERO]);
-    let mut b = CircuitBuilder::<E5>::new();
-    b.enable_poseidon2_perm_base::<KoalaBearD1Width16, _>(generate_poseidon2_trace::<E5, KoalaBearD1Width16>, LiftedPerm(default_koalabear_poseidon2_16()));
-    let mut cc: CircuitChallenger<16, 8, Poseidon2Config> = CircuitChallenger::new_koalabear_base();
-    let mut native = DuplexChallenger::<KB, _, 16, 8>::new(default_koalabear_poseidon2_16());
-    let mut samples_t = Vec::new();
-    let mut samples_v: Vec<E5> = Vec::new();
-    for v in block(first, 1) {
-        let t = b.define_const(lift(v));
-        RecursiveChallenger::<KB, E5>::observe(&mut cc, &mut b, t);
-        native.observe(v);
-    }
-    samples_t.push(RecursiveChallenger::<KB, E5>::sample(&mut cc, &mut b));
-    samples_v.push(lift(native.sample()));
-    for v in block(5, 100) {
-        let t = b.define_const(lift(v));
-        RecursiveChallenger::<KB, E5>::observe(&mut cc, &mut b, t);
-        native.observe(v);
-    }
-    for _ in 0..9 {
-        samples_t.push(RecursiveChallenger::<KB, E5>::sample(&mut cc, &mut b));
-        samples_v.push(lift(native.sample()));
-    }
-    for t in &samples_t {
-        let p = b.public_input();
-        let dlt = b.sub(*t, p);
-        b.assert_zero(dlt);
-    }
-    let circuit: Circuit<E5> = b.build().map_err(|e| format!("build: {e:?}"))?;
+    let build = move |p: DevPerm, expose: bool| build_base(first, p, expose);
+    let (circuit, honest) = run_exposed(&build, &DevPerm::honest())?;
     let cfg = config::koala_bear();
     let npo_prep: Vec<Box<dyn NpoPreprocessor<KB>>> = vec![Box::new(Poseidon2Preprocessor)];
     let air_builders = poseidon2_air_builders_d5::<KoalaBearConfig>();
@@ -229,9 +330,6 @@ fn base_inner(first: usize, name: &'static str, digest_only: bool) -> Result<(Op
     for p in poseidon2_table_provers_d5(Poseidon2Config::KOALA_BEAR_D1_W16) {
         prover.register_table_prover(p);
     }
-    let mut runner = circuit.runner();
-    runner.set_public_inputs(&samples_v).map_err(|e| format!("public inputs: {e:?}"))?;
-    let honest = runner.run().map_err(|e| format!("run: {e:?}"))?;
     let j = judge!(prover, cpd, E5);
-    sweep_table::<E5>(name, 1, NpoTypeId::poseidon2_perm(Poseidon2Config::KOALA_BEAR_D1_W16), &j, &honest).map(|s| (Some(s), line))
+    sweep_table::<E5>(name, 1, NpoTypeId::poseidon2_perm(Poseidon2Config::KOALA_BEAR_D1_W16), &j, &honest, &build).map(|s| (Some(s), line))
 }
